@@ -95,12 +95,44 @@ def rparams(name, ats, rng):
     return p
 
 
+WARM = ['wod', 'antimask', 'mul2', 'self_mul', 'func', 'without_derivs', 'add0']
+NUMOPS = ['nadd', 'nsub', 'rsub', 'nscale', 'ndiv']
+FUNCS = ['sin', 'cos', 'tan', 'asin', 'acos', 'atan', 'exp', 'log', 'sqrt', 'abs', 'recip', 'pow2', 'pow3', 'pow4', 'powi',
+         'powg', 'powh', 'pownh', 'pown1']
+
+
 class Gen:
-    def __init__(self, rng, keys, pkey=0.6):
-        self.rng, self.keys, self.pkey = rng, keys, pkey
+    def __init__(self, rng, keys, pkey=0.6, reuse=0.3):
+        self.rng, self.keys, self.pkey, self.reuse = rng, keys, pkey, reuse
         self.nleaf = 0
+        self.nid = 0
+        self.pool = {}
+
+    def share(self, node, t, shape):
+        """register a node as reusable: every later occurrence is the SAME object (DAG)"""
+        self.nid += 1
+        node['nid'] = self.nid
+        self.pool.setdefault((t, tuple(shape)), []).append(node)
+        return node
+
+    def reused(self, t, shape, leaf_only=False):
+        c = [n for n in self.pool.get((t, tuple(shape)), []) if not leaf_only or n['op'] == 'leaf']
+        if c and self.rng.random() < self.reuse:
+            return copy.deepcopy(self.rng.choice(c))
+        return None
 
     def leaf(self, t, shape):
+        r = self.reused(t, shape, True)
+        if r is not None:
+            return r
+        node = self.fresh_leaf(t, shape)
+        if self.reuse > 0:
+            if self.rng.random() < 0.5:
+                node['warm'] = self.rng.sample(WARM, self.rng.choice([1, 1, 2, 3]))
+            self.share(node, t, shape)
+        return node
+
+    def fresh_leaf(self, t, shape):
         rng = self.rng
         item = ITEM[t]
         n = int(np.prod(shape, dtype=int)) * int(np.prod(item, dtype=int))
@@ -141,13 +173,25 @@ class Gen:
             s = self.structural(t, shape, depth)
             if s is not None:
                 return s
+        if rng.random() < 0.5:
+            r = self.reused(t, shape)
+            if r is not None:
+                return r
         cands = PROD[t]
         ws = [WEIGHT.get(n, 1) for n, _ in cands]
         name, ats = rng.choices(cands, weights=ws)[0]
         args = []
         for i, at in enumerate(ats):
-            args.append(self.node(at, shape, depth - 1, exact and i == 0))
-        return {'op': name, 't': t, 'p': rparams(name, ats, rng), 'args': args}
+            a = self.node(at, shape, depth - 1, exact and i == 0)
+            if at == 'S' and name in FUNCS + ['atan2', 'smul', 'sdiv', 'rot'] and rng.random() < 0.35:
+                # Python-number fast paths (x + c, x - c, c - x, x * c, x / c) right under the function
+                nop = rng.choice(NUMOPS)
+                a = {'op': nop, 't': 'S', 'p': rparams(nop, ('S',), rng), 'args': [a]}
+            args.append(a)
+        node = {'op': name, 't': t, 'p': rparams(name, ats, rng), 'args': args}
+        if exact and self.reuse > 0 and rng.random() < 0.3:
+            self.share(node, t, shape)
+        return node
 
     def structural(self, t, shape, depth):
         rng = self.rng
@@ -346,7 +390,7 @@ def strip_cases(rng, reps):
         ats, _ = STRIP[name]
         for r in range(reps):
             keys = rng.choice(KEYSETS)
-            g = Gen(rng, keys, 1.0 if r == 0 else 0.7)
+            g = Gen(rng, keys, 1.0 if r == 0 else 0.7, reuse=0)
             shape = rng.choice([(), (2,), (3,)])
             args = [g.leaf(t, shape) for t in ats]
             out.append({'mode': 'strip', 'name': name, 'args': args, 'keys': keys, 'req': None,
@@ -381,7 +425,7 @@ def gen_cases(rng, tier):
                 k = list(keys)[0]
                 for sub in range(2 ** len(ats)):
                     for _try in range(40):
-                        g = Gen(rng, keys, 1.0)
+                        g = Gen(rng, keys, 1.0, reuse=0)
                         shape = rng.choice([(), (2,)])
                         kids = []
                         for i, at in enumerate(ats):
@@ -399,6 +443,26 @@ def gen_cases(rng, tier):
                         if smooth(tree, keys)[0]:
                             cases.append(mk_case(tree, keys, kind='subset:' + name))
                             break
+    # 2b. reused operands with a warm cache: f(x (+-*/) c) and g(x) * f(x (+-*/) c) with the SAME object x, for every
+    #     unary function f and every Python-number fast path, x touched beforehand in every catalogued way
+    for f in FUNCS:
+        for nop in NUMOPS:
+            for form in ('warm', 'dag'):
+                for _try in range(60):
+                    keys = rng.choice(KEYSETS)
+                    g = Gen(rng, keys, 1.0, reuse=1.0)
+                    shape = rng.choice([(), (), (2,), (3,)])
+                    x = g.fresh_leaf('S', shape)
+                    x['warm'] = [rng.choice(WARM)] if form == 'warm' else []
+                    g.share(x, 'S', shape)
+                    inner = {'op': nop, 't': 'S', 'p': rparams(nop, ('S',), rng), 'args': [copy.deepcopy(x)]}
+                    tree = {'op': f, 't': 'S', 'p': rparams(f, ('S',), rng), 'args': [inner]}
+                    if form == 'dag':
+                        first = {'op': rng.choice(['sin', 'pow2', 'exp', 'atan']), 't': 'S', 'p': {}, 'args': [copy.deepcopy(x)]}
+                        tree = {'op': 'smul', 't': 'S', 'p': {'side': 'r'}, 'args': [first, tree]}
+                    if smooth(tree, keys)[0]:
+                        cases.append(mk_case(tree, keys, kind='reuse:%s:%s' % (form, f)))
+                        break
     # 3. random deep trees
     for i in range(n_rand):
         keys = rng.choice(KEYSETS)
